@@ -17,7 +17,7 @@ UNITS = [
     Unit(name="QueryRef::from_pointer", file=F, impl="impl<'a, T: Queryable> From<Pointer<'a, T>> for QueryRef<'a, T>", fn="from", order=70,
          serves=["C01", "C03"], trait_method=True,
          ensures=[("from_spec", "r == QueryRef(pointer.inner, pointer.path)")]),
-    Unit(name="js_path_process", file=F, fn="js_path_process", order=71, serves=["C01", "C02", "C03", "C08"],
+    Unit(name="js_path_process", calls=['JpQuery::process'], file=F, fn="js_path_process", order=71, serves=["C01", "C02", "C03", "C08"],
          requires=[("wf", "wf_segments(path.segments@)")],
          ensures=[
              ("ok", "r is Ok"),
